@@ -18,7 +18,7 @@ ASSUMPTIONS = ['stationary sensor: acc and mag are exact images of the filter\'s
                'oracle: every row finite and unit; error(H) <= tol; error <= tol over the last 10 % of the run; final error <= max(initial error, tol)',
                'accelerometer-only variants are judged on tilt only; AQUA\'s state is the conjugate attitude; filters without a q0 are started far away by making the first sample consistent with the initial attitude',
                'initial errors up to 175 degrees; exactly opposite is excluded as in the statement']
-REQUIRED_CLASSES = ['err0=0', 'err0<=30', 'err0>=150', 'full-attitude', 'tilt-only']
+REQUIRED_CLASSES = ['streaming', 'err0=0', 'err0<=30', 'err0>=150', 'full-attitude', 'tilt-only']
 
 DIP = 60.0
 TRUTHS = [np.array([1.0, 0, 0, 0]), np.array([0.0, 1.0, 0, 0]), rq.axang2q([0, 1, 0], math.pi / 2), None, None, rq.qunit([0.35, 0.6, -0.6, 0.4])]
@@ -32,6 +32,10 @@ def noise_patterns():
         for v in ((1, 0, 0), (0, 1, 0), (0, 0, 1), (1 / math.sqrt(3), -1 / math.sqrt(3), 1 / math.sqrt(3))):
             v = eps * np.array(v)
             pats.append(np.array([v, -v]))
+        v = eps * np.array([1.0, 0.5, -0.3]); w = eps * np.array([-0.2, 0.7, 0.6])
+        pats.append(np.array([v, w, -v - w]))
+    # amplitudes many decades below the nominal ones (a sensor at rest on a good gyro): next to the exact-zero shortcuts of the update steps
+    for eps in (1e-6, 1e-9, 1e-12):
         v = eps * np.array([1.0, 0.5, -0.3]); w = eps * np.array([-0.2, 0.7, 0.6])
         pats.append(np.array([v, w, -v - w]))
     return pats
@@ -55,8 +59,9 @@ CONFIGS = {
     'ROLEQ-MARG': [(dict(frame='NED', magnetic_ref=DIP, frequency=10.0), 200, 0.5), (dict(frame='NED', magnetic_ref=DIP, frequency=100.0), 200, 0.5)],
     'ROLEQ-MARG-ENU': [(dict(frame='ENU', magnetic_ref=DIP, frequency=10.0), 300, 0.5)],
     'FKF-MARG': [(dict(frequency=10.0), 3000, 0.5)],
-    'Complementary-IMU': [(dict(frequency=10.0, gain=0.9), 200, 0.5)],
-    'Complementary-MARG': [(dict(frequency=10.0, gain=0.9), 200, 0.5), (dict(frequency=100.0, gain=0.5), 100, 0.5)],
+    'Complementary-IMU': [(dict(frequency=10.0, gain=0.9), 200, 0.5), (dict(frequency=100.0, gain=0.2), 1000, 0.5), (dict(frequency=100.0), 8000, 0.5)],
+    'Complementary-MARG': [(dict(frequency=10.0, gain=0.9), 200, 0.5), (dict(frequency=100.0, gain=0.5), 100, 0.5), (dict(frequency=100.0, gain=0.5), 1500, 0.5),
+                           (dict(frequency=100.0), 8000, 0.5)],     # long records: "then stays there" far beyond the settling time
 }
 LONG = 5000      # configurations with a longer horizon run on a reduced initial-error grid
 
@@ -120,11 +125,12 @@ def job_orbits(ctx, key, ci, ti, k):
     if ctx.thorough:
         grid = [(ax, an, p) for ax in range(len(ERR_AXES)) for an in range(len(ERR_ANG)) for p in range(len(pats))]
         if H > LONG:             # long default-gain runs: reduced initial-error set, documented
-            grid = [(ax, an, p) for ax in (0, 2, 5) for an in (0, 2, 4, 5) for p in (0, 4)]
+            grid = [(ax, an, p) for ax in (0, 2, 5) for an in (0, 2, 4, 5) for p in (0, 4, 11)]
     else:
         grid = [(ax, an, p) for ax in (0, 2, 5) for an in (0, 2, 4, 5) for p in (ti % 4, 4)]
+        grid += [(5, 4, 10 + ti % 3), (2, 2, 10 + (ti + 1) % 3)]
         if H > LONG:
-            grid = [(2, 5, 4), (5, 2, 4)]
+            grid = [(2, 5, 4), (5, 2, 4), (5, 4, 10 + ti % 3)]
     for ax, an, p in grid:
         kk = f'filter={key} cfg#{ci} truth#{ti}k{k} axis#{ax} err0={ERR_ANG[an]:g} noise#{p}'
         ctx.evals += 1
@@ -165,6 +171,74 @@ def job_orbits(ctx, key, ci, ti, k):
     ctx.sample({'filter': key, 'cfg': cfg, 'horizon': H, 'tol_deg': tol, 'truth': qt.tolist(), 'err0': [ERR_AXES[2].tolist(), 150.0], 'noise': pats[4].tolist()})
 
 
+CARRIERS = ['ndarray', 'list', 'Quaternion', 'Quaternion.copy()', 'Quaternion/norm', 'Quaternion view']
+
+
+def _carry(kind, q):
+    """The attitude handed back to the filter at the next step, in the forms a user loop `q = f.update(q, ...)` produces."""
+    from ahrs import Quaternion
+    if kind == 'ndarray':
+        return np.array(q, float)
+    if kind == 'list':
+        return [float(x) for x in np.asarray(q)]
+    Q = q if isinstance(q, Quaternion) else Quaternion(np.array(q, float))
+    if kind == 'Quaternion':
+        return Q
+    if kind == 'Quaternion.copy()':
+        return Q.copy()
+    if kind == 'Quaternion/norm':
+        return Q / np.linalg.norm(Q)
+    return Q[:]
+
+
+def job_stream(ctx, key, ci, k):
+    """The same closed loop driven sample by sample through the update method, the a-priori attitude carried in each of the forms above."""
+    r = rr.by_key(key)
+    cfg, H, tol = CONFIGS[key][ci]
+    qt = truths(k)[5]
+    g, m = r.refs(DIP)
+    if isinstance(cfg.get('magnetic_ref'), np.ndarray):
+        m = cfg['magnetic_ref'] / np.linalg.norm(cfg['magnetic_ref'])
+    tilt_only = not r.has_mag
+    pat = noise_patterns()[4]
+    Rt = rq.R(qt)
+    acc1 = Rt.T @ g * 9.81; mag1 = Rt.T @ m * 45.0
+    for ax, ang in ((5, 150.0), (2, 30.0)):
+        q_init = rq.qmul(qt, rq.axang2q(ERR_AXES[ax], math.radians(ang)))
+        e0 = _err_deg(r, expected_state(r, q_init), qt, tilt_only, g)
+        for cn in CARRIERS:
+            kk = f'filter={key} cfg#{ci} stream carrier={cn} axis#{ax} err0={ang:g}'
+            ctx.evals += 1
+            try:
+                np.random.seed(4)
+                inst = r.fresh(cfg)
+                q = expected_state(r, q_init)
+                errs = []
+                for t in range(H):
+                    q = r.step_fn(inst, _carry(cn, q), pat[t % len(pat)].copy(), acc1.copy(), mag1.copy() if r.has_mag else None)
+                    if t >= int(0.9 * H):
+                        errs.append(_err_deg(r, np.array(q, float), qt, tilt_only, g))
+                ctx.transitions += H; ctx.states += H; ctx.traces += 1
+            except TypeError as ex:
+                if cn == 'ndarray':
+                    ctx.fail(f'{key}: streaming orbit raises', kk, f'{type(ex).__name__}: {ex}'[:160], 'an orbit')
+                else:
+                    ctx.outcome(('carrier-refused', key, cn))       # a TypeError for a non-ndarray a-priori is a refusal, not a wrong answer
+                continue
+            except Exception as ex:
+                ctx.fail(f'{key}: streaming orbit raises', kk, f'{type(ex).__name__}: {ex}'[:160], 'an orbit')
+                continue
+            qf = np.array(q, float)
+            if not np.all(np.isfinite(qf)) or abs(np.linalg.norm(qf) - 1) > 1e-9:
+                ctx.fail(f'{key}: streaming orbit ends on a finite unit quaternion', kk, qf, 'finite unit')
+                continue
+            ctx.expect(errs[-1] <= tol, f'{key}: streaming error at the horizon below tolerance', kk, {'err_deg': errs[-1], 'err0_deg': e0}, tol, tol)
+            ctx.expect(max(errs) <= tol, f'{key}: streaming stays within tolerance over the last 10 % of the run', kk, max(errs), tol, tol)
+            ctx.cls('streaming')
+            ctx.seen((key, ci, 'stream', cn, ax))
+    ctx.sample({'filter': key, 'cfg': cfg, 'horizon': H, 'carriers': CARRIERS})
+
+
 def run(ctx):
     k = A.seed_k(ctx.seed)
     jobs = []
@@ -173,6 +247,13 @@ def run(ctx):
             tis = range(6) if ctx.thorough else ((3, 5) if cfgs[ci][1] <= 1500 else (5,))
             for ti in tis:
                 jobs.append(('job_orbits', (key, ci, ti, k)))
+    for key, cfgs in CONFIGS.items():
+        r = rr.by_key(key)
+        if r.step_fn is None or r.q0_key != 'q0' or key.startswith('UKF'):      # (UKF: recorded finding, it does not converge at all)
+            continue
+        for ci in range(len(cfgs)):
+            if cfgs[ci][1] <= 3000 or ctx.thorough:
+                jobs.append(('job_stream', (key, ci, k)))
     # longest jobs first
     jobs.sort(key=lambda j: -CONFIGS[j[1][0]][j[1][1]][1])
     core.run_jobs(ctx, __name__, jobs)
